@@ -21,8 +21,11 @@ A Kani unit is contracts/<unit>/kani.toml (+ kani_harness.rs, optional spec.rs, 
     name = "cmp_k_overlaps"                  # fn name inside harness_file
     label = "overlaps_iff_lexicographic"     # obligation id = <unit>/<label>
     tier = "quick"                           # "thorough" => only in the thorough tier
-    kind = "contract"                        # contract | complete | bounded
-    bound = 0                                # for kind = "bounded": reported, never counted
+    kind = "contract"                        # contract | complete | bounded | termination
+    bound = 0                                # for kind = "bounded"/"termination": reported, never counted
+    termination_of = ["get_rtreeindex"]      # kind = "termination": loops of these fns carry the obligation
+    consts = { n = "5usize", b = "2u32" }    # extra {name} substitutions for the replay template (not inputs)
+    cbmc_args = ["--unwindset", "..."]       # passed after `--cbmc-args` (needs -Z unstable-options; added)
     timeout_s = 300
     flags = []                               # extra cargo-kani flags, e.g. ["-Z", "stubbing"]
     inputs = ["q:u32", "qs:u32"]             # the harness's kani::any() calls, in order (for playback decoding)
@@ -34,6 +37,15 @@ line the scan finds in the unit's *.rs files and contract attributes (kani::assu
 stubs, kani::unwind, ...); a scanned line that is not listed there => undecided.
 spec.rs (optional) holds the plain-Rust statement shared by the harness (`include!("spec.rs")`) and
 the replay templates (`include!("{unit_dir}/spec.rs")`).
+
+kind = "termination" (a bounded harness whose obligation is "the call returns"): the harness fixes the
+input size, and its #[kani::unwind(K)] is chosen so that on the pinned tree every loop has exited within
+K iterations (the harness passing on /repo is what shows K suffices).  In THIS kind a failed
+`unwinding assertion` of a loop located in one of the `termination_of` functions (any loop, if the list
+is absent) is a FAILURE of the termination obligation — the loop was still running after K iterations
+on an input for which it used to stop — not "undetermined".  Unwinding failures elsewhere (std, itertools,
+the harness's own loops) stay undecided.  The replay template must carry its own watchdog (run the call in
+a thread, report VERIF-REPLAY-REPRODUCED if it has not returned after a few seconds).
 
 Verdicts: a Kani check with status FAILURE (other than unwinding / unsupported-construct
 checks) in a selected harness is `failed` (class falsified).  Everything else that is not a
@@ -102,6 +114,8 @@ def _load(path):
         h.setdefault('kind', 'complete')
         h.setdefault('flags', [])
         h.setdefault('inputs', [])
+        h.setdefault('consts', {})
+        h.setdefault('cbmc_args', [])
     return u
 
 
@@ -394,13 +408,27 @@ def classify_run(rc, out, secs, timeout, harness):
     fails = [c for c in props if c['status'] == 'FAILURE']
     genuine = [c for c in fails if not UNDECIDED_CHECK.search(c['description'])]
     soft = [c for c in fails if UNDECIDED_CHECK.search(c['description'])]
+    if harness.get('kind') == 'termination':
+        fns = harness.get('termination_of') or []
+        nonterm = [c for c in soft if re.search(r'unwinding assertion|recursion unwinding', c['description'])
+                   and (not fns or any(re.search(r'\b%s\b' % re.escape(f), c['location'] + ' ' + c['id']) for f in fns))]
+        for c in nonterm:
+            c['description'] = 'TERMINATION: still looping after the unwinding bound (%s) in %s' % (c['description'], c['location'][:160])
+        genuine += nonterm
+        soft = [c for c in soft if c not in nonterm]
+        if nonterm:
+            undet_ok = True
+        else:
+            undet_ok = False
+    else:
+        undet_ok = False
     undet = [c for c in props if c['status'] == 'UNDETERMINED']
     n = pr['n_total'] if pr['n_total'] is not None else len(props)
     res = {'checks': n, 'failures': genuine, 'parsed': pr, 'why': ''}
     if genuine:
         res['status'] = 'failed'
         return res
-    if soft or undet:
+    if soft or (undet and not undet_ok):
         res['status'] = 'undecided'
         res['why'] = 'not decided by Kani: ' + '; '.join(sorted(set(c['description'][:80] for c in (soft + undet))))[:400]
         return res
@@ -509,7 +537,8 @@ def render_template(unit, harness, values):
         tpl = open(os.path.join(unit['dir'], harness['replay_template_file']), encoding='utf-8').read()
     if not tpl:
         return None
-    subs = dict(values)
+    subs = dict(harness.get('consts') or {})
+    subs.update(values)
     subs['unit_dir'] = unit['dir']
     missing = []
 
@@ -653,8 +682,11 @@ def _blank(unit, why=None):
     return r
 
 
-def _kani_cmd(unit, hname, target, extra=()):
-    return ['cargo', 'kani'] + BASE_FLAGS + list(extra) + ['--target-dir', target, '--harness', _qualified(unit, hname), '--exact']
+def _kani_cmd(unit, hname, target, extra=(), cbmc_args=()):
+    cmd = ['cargo', 'kani'] + BASE_FLAGS + list(extra) + ['--target-dir', target, '--harness', _qualified(unit, hname), '--exact']
+    if cbmc_args:   # must be the last flag
+        cmd += ['-Z', 'unstable-options', '--cbmc-args'] + list(cbmc_args)
+    return cmd
 
 
 def run(prop, units, scratch, tier, repo):
@@ -759,7 +791,7 @@ def run(prop, units, scratch, tier, repo):
     def one(job):
         u, h = job
         to = int(h.get('timeout_s') or DEFAULT_TIMEOUT[tier if h['tier'] == 'thorough' else 'quick'])
-        cmd = _kani_cmd(u, h['name'], target, h['flags'])
+        cmd = _kani_cmd(u, h['name'], target, h['flags'], h['cbmc_args'])
         rc, out, secs = _run(cmd, os.path.join(copy, u['crate_dir']), env, to, MEM_KB)
         c = classify_run(rc, out, secs, to, h)
         c['seconds'] = round(secs, 2)
@@ -776,7 +808,7 @@ def run(prop, units, scratch, tier, repo):
         r['harnesses'][h['name']] = {'seconds': c['seconds'], 'checks': c['checks'], 'status': c['status'], 'label': h['label'],
                                      'kind': h['kind'], 'solver_s': pr['time'] if pr else None}
         r['solver_s'] += pr['time'] if pr else 0.0
-        bounded = h['kind'] == 'bounded'
+        bounded = h['kind'] in ('bounded', 'termination')
         if bounded:
             r['bounded'].append({'harness': '%s/%s' % (u['name'], h['name']), 'bound': h.get('bound'), 'checks': c['checks'], 'status': c['status']})
         if c['status'] == 'undecided':
@@ -811,8 +843,8 @@ def run(prop, units, scratch, tier, repo):
     return done()
 
 
-def _playback(u, hname, flags, copy, target, env):
-    cmd = _kani_cmd(u, hname, target, list(flags) + ['-Z', 'concrete-playback', '--concrete-playback=print'])
+def _playback(u, hname, flags, copy, target, env, cbmc_args=()):
+    cmd = _kani_cmd(u, hname, target, list(flags) + ['-Z', 'concrete-playback', '--concrete-playback=print'], cbmc_args)
     rc, out, secs = _run(cmd, os.path.join(copy, u['crate_dir']), env, CEX_TIMEOUT, MEM_KB)
     return (parse_playback(out) if rc is not None else []), secs, rc
 
@@ -846,7 +878,7 @@ def _counterexample(u, h, entry, copy, target, env, repo, scratch):
     total = 0.0
     note = ''
     for src in sources:
-        tests, secs, rc = _playback(u, src, h['flags'], copy, target, env)
+        tests, secs, rc = _playback(u, src, h['flags'], copy, target, env, h['cbmc_args'])
         total += secs
         if rc is None:
             note = 'concrete playback of %s timed out after %ds' % (src, CEX_TIMEOUT)
